@@ -15,6 +15,7 @@ static inline _Bool VTMF_CardSecret__import(VTMF_CardSecret *cs, str_t s) { (voi
  * by the dependency stubs at the moment they are called.
  * ------------------------------------------------------------------------- */
 size_t ghost_r;                /* arbitrary round, never assigned */
+size_t ghost_i2;               /* a second arbitrary position, never assigned */
 _Bool ghost_ce1, ghost_ce2;    /* names of the element-check terms of card ghost_i */
 size_t bit_n;                  /* fresh 1-bit draws so far (one per round)                 */
 long gr_bit; size_t gr_bit_ev; /* value / event number of draw number ghost_r              */
